@@ -74,6 +74,10 @@ def gen_history(rng):
     malformed = rng.random() < 0.04
     if malformed: xml += '<w:abstractNum w:abstractNumId="5"><w:lvl w:ilvl="0">' + rng.choice(['<w:start/>', '<w:numFmt/>']) + '</w:lvl></w:abstractNum>'
     xml += '<w:num w:numId="1"><w:abstractNumId w:val="0"/></w:num><w:num w:numId="2"><w:abstractNumId w:val="1"/></w:num>'
+    # a second list on definition 0 that overrides its start: the override is not "the level's configured start value" of list 1
+    share = has_num and rng.random() < 0.4
+    if share:
+        xml += '<w:num w:numId="4"><w:abstractNumId w:val="0"/><w:lvlOverride w:ilvl="0"><w:startOverride w:val="7"/></w:lvlOverride></w:num>'; nums['4'] = 0
     k3 = rng.random()
     if k3 < 0.3: xml += '<w:num w:numId="3"/>'
     elif k3 < 0.55: xml += '<w:num w:numId="3"><w:abstractNumId w:val="7"/></w:num>'      # refers to a definition that does not exist: list 3 alone is undefined
@@ -82,7 +86,7 @@ def gen_history(rng):
         tok[0] += 1
         k = rng.random()
         if k < 0.7:
-            nid = rng.choice(['1', '1', '2', '2', '3', '77'])
+            nid = rng.choice(['1', '1', '2', '2', '3', '77'] + (['4', '4'] if share else []))
             lv = rng.choice([0, 0, 0, 1, 1, 2, 3, 8]) if rng.random() < 0.7 else rng.randint(0, 8)
             return p(r(f'«{tok[0]}»item'), ppr=f'<w:numPr><w:ilvl w:val="{lv}"/><w:numId w:val="{nid}"/></w:numPr>')
         if k < 0.9:
